@@ -1,5 +1,95 @@
-"""mutation smoke (thorough tier): canned single-site edits applied to a scratch copy of the current tree"""
+"""mutation smoke (thorough tier): canned single-site edits applied to scratch copies of the current tree, each
+re-analysed by the same rules in a sub-context; mutants must be flagged by the named rule, benign edits must stay silent."""
+import importlib.util
+import os
+import concurrent.futures as cf
+
+from . import engine, scratch
 
 
-def run(ctx, prop):
-    ctx.extra.setdefault("mutants", {"applied": 0, "flagged": 0, "skipped": 0, "note": "not yet populated"})
+def load_table():
+    p = os.path.join(engine.VERIF, "mutants", "table.py")
+    spec = importlib.util.spec_from_file_location("pmh_mutant_table", p)
+    mod = importlib.util.module_from_spec(spec)
+    spec.loader.exec_module(mod)
+    return mod.M
+
+
+def run_one(args):
+    prop, mt, slot, src = args
+    import importlib
+    mod = importlib.import_module("pmh.rules.%s" % prop)
+    d = scratch.make_copy(src)
+    try:
+        if not scratch.apply_edit(d, mt["file"], mt["old"], mt["new"], mt.get("count", 1)):
+            return (mt["name"], "skipped", "context not found (the tree changed)", [])
+        try:
+            facts = engine.load_facts("default", src_root=d, workname="mut%d" % slot)
+        except engine.AnalysisError as e:
+            return (mt["name"], "build-failed", str(e)[-300:], [])
+        sub = engine.Ctx(prop, "thorough")
+        sub.new_config("default")
+        try:
+            mod.run(sub, facts)
+            sub.check_floors()
+        except engine.AnalysisError as e:
+            return (mt["name"], "analysis-error", str(e)[:300], [])
+        rules = sorted({v["rule"] for v in sub.violations})
+        keys = [v["key"] for v in sub.violations]
+        return (mt["name"], "ran", rules, keys)
+    finally:
+        scratch.remove(d)
+
+
+def run(ctx, prop, src=None):
+    table = [mt for mt in load_table() if mt["prop"] == prop]
+    res = {"applied": 0, "flagged": 0, "skipped": 0, "benign_applied": 0, "benign_silent": 0, "details": []}
+    if not table:
+        ctx.extra["mutants"] = res
+        return
+    jobs = [(prop, mt, i % 4, src) for i, mt in enumerate(table)]
+    # one worker per slot so that two scratch copies never share a target directory at the same time
+    by_slot = {}
+    for j in jobs:
+        by_slot.setdefault(j[2], []).append(j)
+    out = []
+
+    def run_slot(js):
+        return [run_one(j) for j in js]
+
+    with cf.ThreadPoolExecutor(max_workers=4) as ex:
+        for r in ex.map(run_slot, by_slot.values()):
+            out.extend(r)
+    byname = {mt["name"]: mt for mt in table}
+    for (name, status, rules, keys) in out:
+        mt = byname[name]
+        d = {"name": name, "kind": mt["kind"], "expected_rule": mt["rule"], "status": status, "rules_fired": rules if status == "ran" else [], "note": rules if status != "ran" else ""}
+        res["details"].append(d)
+        if status == "skipped":
+            res["skipped"] += 1
+            continue
+        if status != "ran":
+            # a mutant that does not compile any more is not evidence either way
+            res["skipped"] += 1
+            continue
+        if mt["kind"] == "mutant":
+            res["applied"] += 1
+            if mt["rule"] in rules:
+                res["flagged"] += 1
+                ctx.ok("MUTANT", "mutation smoke", "%s flagged by %s" % (name, mt["rule"]), mt["file"])
+            else:
+                ctx.instances.append({"rule": "MUTANT", "fn": "mutation smoke", "instance": "%s NOT flagged by %s (fired: %s)" % (name, mt["rule"], rules), "where": mt["file"], "verdict": "checker weakness (information)"})
+        else:
+            res["benign_applied"] += 1
+            if not rules:
+                res["benign_silent"] += 1
+                ctx.ok("BENIGN", "mutation smoke", "%s stays silent" % name, mt["file"])
+            else:
+                ctx.instances.append({"rule": "BENIGN", "fn": "mutation smoke", "instance": "%s raised %s" % (name, rules), "where": mt["file"], "verdict": "checker false alarm on a benign edit (information)"})
+    ctx.extra["mutants"] = res
+    weak = res["applied"] - res["flagged"]
+    noisy = res["benign_applied"] - res["benign_silent"]
+    if weak or noisy:
+        # a checker self-test failure is an analysis problem, never a VIOLATION of the property
+        raise engine.AnalysisError("mutation smoke: %d mutant(s) not flagged, %d benign edit(s) flagged: %s"
+                                   % (weak, noisy, [d for d in res["details"] if (d["kind"] == "mutant" and d["status"] == "ran" and d["expected_rule"] not in d["rules_fired"]) or (d["kind"] == "benign" and d["rules_fired"])]))
